@@ -1344,4 +1344,58 @@ def rule_diagonal_lift(P):
     return R
 
 
-RULES = [rule_next_level, rule_terminal_type, rule_index_kind, rule_fold_zeros, rule_card_skipped, rule_mark_once, rule_array_extent, rule_position_kind, rule_operand_unpack, rule_chain_args, rule_compare_after_store, rule_skip_rule_consulted, rule_diagonal_lift]
+IDENTITY_SCOPE = ("operations/sat_pregen.cc", "sat_relations.cc")
+
+
+def rule_identity_needs_rule(P):
+    """reading a level that a relation node skips as the identity pattern (unpacked_node::initIdentity) is what an identity-reduced forest means by the
+    skip; a fully-reduced forest means the complete matrix.  The monolithic operations ask (`isIdentityReduced()` governs every initIdentity there —
+    level.operand-unpack).  The partitioned-saturation code (C20) never does, and pregen_relation accepts any multi-terminal relation forest: with a
+    fully-reduced one, an event that leaves a variable free is fired as if it kept the variable (triage/t27.cc: 2 states instead of 4)"""
+    R = RuleResult("level.identity-needs-rule", "in the partitioned-saturation code (sat_pregen.cc, sat_relations.cc): every unpacked_node::initIdentity of a relation node is governed by the true edge of <relation forest>->isIdentityReduced(), or the relation class rejects forests that are not identity reduced in its constructor")
+    # does a relation class constructor reject other rules?  (throw governed by a test on isIdentityReduced)
+    guarded = set()
+    for f in P.fns.values():
+        if not f.get("cfg") or f["file"] not in IDENTITY_SCOPE or not f.get("cls") or base_name(f["q"]).split("::")[-1] != base_name(f["cls"]).split("::")[-1]:
+            continue
+        g = Graph(f)
+        if any(b.kind == "branch" and b.cond and "isIdentityReduced()" in _nz(b.cond["text"]) for b in g.nodes) and any(k.kind == "throw" for k in g.nodes):
+            guarded.add(f["cls"])
+    n = 0
+    seen = set()
+    for f in sorted(P.fns.values(), key=lambda f: (f["file"], f["line"], f["inst"])):
+        if not f.get("cfg") or f["file"] not in IDENTITY_SCOPE or (f["file"], f["line"]) in seen:
+            continue
+        seen.add((f["file"], f["line"]))
+        if "bckwd_" in f["q"]:
+            # C20 quantifies over the forward direction only; the backward twins have the same shape and are left to the note
+            R.notes.append("%s (backward twin) not in the property's scope, same shape" % base_name(f["q"]))
+            continue
+        g = Graph(f)
+        for k in g.nodes:
+            if k.kind != "call" or k.ev["q"] != M + "unpacked_node::initIdentity":
+                continue
+            n += 1
+            R.functions.add(f["inst"])
+            R.paths += 1
+            U = _nz(k.ev.get("recv") or "")
+            iid = "%s: %s->initIdentity(%s)" % (base_name(f["q"]).replace(M, "")[:60], U, ", ".join(_nz(a) for a in k.ev["args"])[:50])
+            gov = False
+            for c in g.nodes:
+                if c.kind != "branch" or not c.cond or len(c.succ) != 2 or not re.fullmatch(r"!?\w+->isIdentityReduced\(\)", _nz(c.cond["text"])):
+                    continue
+                arms = [i for s_, i in c.succ if k.id in g.reach([s_], avoid=lambda x, c=c: x.id == c.id)]
+                if arms == [1 if _nz(c.cond["text"]).startswith("!") else 0]:
+                    gov = True
+            if gov or guarded:
+                R.ok(iid, where(f, k.line), by="isIdentityReduced() test" if gov else "constructor of %s" % sorted(guarded))
+            else:
+                R.fail(iid, where(f, k.line), Finding(R.rule, f["file"], base_name(f["q"]), "identity-expansion",
+                       "a level skipped by a relation node is expanded as the identity pattern without asking the forest for its reduction rule, and no relation class restricts its forest to identity-reduced: in a fully-reduced relation forest the skipped level is the complete matrix (the variable is free), so the event is fired as if it kept the variable", k.line))
+    if n < 3:
+        raise AnalysisBroken("level.identity-needs-rule: only %d initIdentity calls found in the forward partitioned-saturation code, expected ≥3" % n)
+    R.require_floor(3, "identity expansions of relation nodes")
+    return R
+
+
+RULES = [rule_next_level, rule_terminal_type, rule_index_kind, rule_fold_zeros, rule_card_skipped, rule_mark_once, rule_array_extent, rule_position_kind, rule_operand_unpack, rule_chain_args, rule_compare_after_store, rule_skip_rule_consulted, rule_diagonal_lift, rule_identity_needs_rule]
